@@ -83,6 +83,124 @@ var pooledBufferCalls = merge(bufferCalls, map[string]shim{
 	"Buffer.AppendInt": {kind: "mut", f: "Buffer.AppendInt"},
 })
 
+// *CheckedEntry: nil-ness, the dirty flag, ErrorOutput and the terminal hook (nil-able), the cores, and the trace of
+// every call Write makes to the outside (cores, ErrorOutput, hook, pool) in order
+var ceFields = map[string]fieldSpec{
+	"dirty": {"dirty", "bool"}, "ErrorOutput": {"eo", "opt:WriteSyncer"}, "after": {"after", "opt:Hook"},
+	"cores": {"cores", "[]Core"}, "Time": {"time", "Time"}, "Entry": {"entry", "Entry"}, "#ev": {"ev", "[]Event"},
+}
+
+// AddCore / After / Should: a nil receiver is replaced by a fresh entry from the pool (getCheckedEntry = Get + reset)
+func ceAddFunc(name string, extra map[string]shim) transFunc {
+	return transFunc{file: "zapcore/entry.go", recv: "CheckedEntry", name: name, lean: name,
+		fields: map[string]fieldSpec{"dirty": {"dirty", "bool"}, "ErrorOutput": {"eo", "opt:WriteSyncer"}, "after": {"after", "opt:Hook"},
+			"cores": {"cores", "[]Core"}, "Entry": {"entry", "Entry"}},
+		recvNil: "isnil", recvAs: &fieldSpec{"self", "CE"},
+		types: map[string]string{"Entry": "Entry", "Core": "Core", "*CheckedEntry": "CE", "CheckWriteHook": "opt:Hook", "CheckWriteAction": "opt:Hook"},
+		calls: merge(map[string]shim{
+			"getCheckedEntry": {kind: "fresh", flds: []string{"dirty", "ErrorOutput", "after", "cores"}},
+		}, extra)}
+}
+
+// ---- the core algebra (zapcore/core.go, tee.go, hook.go, increase_level.go)
+//
+// A *CheckedEntry parameter is the nil-able record [cores]; entries are the record [Level]; sub-cores, encoders,
+// sinks and hook functions are opaque values handed to external intrinsics, which are recorded ("#ev") when the
+// call has an effect (Write, Sync, EncodeEntry, a hook function) and pure when it has none (Enabled, Check, AddCore).
+var coreTypes = map[string]string{"Entry": "struct:Entry", "*CheckedEntry": "ptr:struct:CE", "Field": "Field", "Core": "Core", "Level": "i8"}
+var coreStructs = map[string][]fieldSpec{"Entry": {{"Level", "i8"}}, "CE": {{"cores", "[]Core"}}}
+var coreConsts = map[string]string{"ErrorLevel": "i8:2"}
+var coreCalls = map[string]shim{
+	"Core.Write":            {kind: "extstmt", f: "Core.Write", res: []string{"error"}, trace: "#ev"},
+	"Core.Sync":             {kind: "extstmt", f: "Core.Sync", res: []string{"error"}, trace: "#ev"},
+	"Core.Check":            {kind: "ext", f: "Core.Check", res: []string{"ptr:struct:CE"}},
+	"Core.Enabled":          {kind: "ext", f: "Core.Enabled", res: []string{"bool"}},
+	"ptr:struct:CE.AddCore": {kind: "ext", f: "CE.AddCore", res: []string{"ptr:struct:CE"}}, // proved separately: TransCEAdd
+	"multierr.Append":       {kind: "builtin", f: "append...", res: []string{"error"}},
+}
+
+func coreFunc(file, recv, name string, fields map[string]fieldSpec, recvAs *fieldSpec, extra map[string]shim) transFunc {
+	fl := map[string]fieldSpec{"#ev": {"ev", "[]Event"}}
+	for k, v := range fields {
+		fl[k] = v
+	}
+	return transFunc{file: file, recv: recv, name: name, lean: recv + "_" + name, fields: fl, recvAs: recvAs,
+		types: coreTypes, structs: coreStructs, consts: coreConsts, calls: merge(coreCalls, extra)}
+}
+
+var ioCoreFields = map[string]fieldSpec{"enc": {"enc", "Encoder"}, "out": {"out", "WriteSyncer"}}
+var ioCoreCalls = map[string]shim{
+	"recv.Enabled":        {kind: "ext", f: "LevelEnabler.Enabled", res: []string{"bool"}}, // the embedded LevelEnabler
+	"Encoder.EncodeEntry": {kind: "extstmt", f: "Encoder.EncodeEntry", res: []string{"Buffer", "error"}, trace: "#ev"},
+	"WriteSyncer.Write":   {kind: "extstmt", f: "WriteSyncer.Write", res: []string{"int", "error"}, trace: "#ev"},
+	"WriteSyncer.Sync":    {kind: "extstmt", f: "WriteSyncer.Sync", res: []string{"error"}, trace: "#ev"},
+	"Buffer.Bytes":        {kind: "self", res: []string{"bytes"}},
+	"Buffer.Free":         {kind: "nop"},
+	"recv.Sync":           {kind: "fun", f: "ioCore_Sync", res: []string{"error"}},
+}
+var selfCore = &fieldSpec{"self", "Core"}
+var hookedFields = map[string]fieldSpec{"Core": {"core", "Core"}, "funcs": {"funcs", "[]HookFn"}}
+var lfcFields = map[string]fieldSpec{"core": {"core", "Core"}, "level": {"level", "LevelEnabler"}}
+
+// ---- logger.go: Logger.check (up to the early return for entries nobody writes), terminalHookOverride, and the
+// level guards of SugaredLogger.log / logln.  Hooks are nil-able values [code]: WriteThenNoop 0, Goexit 1, Panic 2,
+// Fatal 3, anything else a custom hook.
+var hookConsts = map[string]string{
+	"zapcore.WriteThenNoop": "val:opt:Hook|.list [.int 0]", "zapcore.WriteThenGoexit": "val:opt:Hook|.list [.int 1]",
+	"zapcore.WriteThenPanic": "val:opt:Hook|.list [.int 2]", "zapcore.WriteThenFatal": "val:opt:Hook|.list [.int 3]",
+	"zapcore.DPanicLevel": "i8:3", "zapcore.PanicLevel": "i8:4", "zapcore.FatalLevel": "i8:5", "DPanicLevel": "i8:3",
+}
+var loggerTypes = map[string]string{"zapcore.Level": "i8", "zapcore.CheckWriteHook": "opt:Hook", "*zapcore.CheckedEntry": "ptr:struct:CE",
+	"zapcore.Entry": "struct:Entry"}
+var loggerStructs = map[string][]fieldSpec{
+	"Entry": {{"LoggerName", "string"}, {"Time", "Time"}, {"Level", "i8"}, {"Message", "string"}},
+	"CE":    {{"cores", "[]Core"}, {"after", "opt:Hook"}},
+}
+
+// SugaredLogger.log / logln: the level guard is translated; formatting, Check, sweetenFields and Write are the tail
+func sugarGuard(name, from string) transFunc {
+	return transFunc{file: "sugar.go", recv: "SugaredLogger", name: name, lean: "Sugar_" + name,
+		fields: map[string]fieldSpec{"#ev": {"ev", "[]Event"}},
+		types:  map[string]string{"zapcore.Level": "i8", "interface{}": "Any"}, consts: hookConsts,
+		tail: &tailSpec{from: from, f: "Sugar.formatCheckWrite", args: []string{"lvl"}, trace: "#ev"},
+		calls: map[string]shim{
+			// s.base.Core().Enabled(lvl): the base logger's core
+			"recv.base.Core().Enabled": {kind: "ext", f: "Core.Enabled", res: []string{"bool"}},
+		}}
+}
+
+// ---- the lock-protected wrappers: sync.Mutex Lock/Unlock, the wrapped WriteSyncer and the bufio.Writer are recorded
+// intrinsics; what is proved is the ORDER: everything happens between Lock and Unlock, Unlock always last.
+func lockedFunc(recv, name, file string) transFunc {
+	return transFunc{file: file, recv: recv, name: name, lean: recv + "_" + name,
+		fields: map[string]fieldSpec{"ws": {"ws", "WriteSyncer"}, "#ev": {"ev", "[]Event"}},
+		calls: map[string]shim{
+			"recv.Lock":         {kind: "extstmt", f: "Mutex.Lock", trace: "#ev"}, // the embedded sync.Mutex
+			"recv.Unlock":       {kind: "extstmt", f: "Mutex.Unlock", trace: "#ev"},
+			"WriteSyncer.Write": {kind: "extstmt", f: "WriteSyncer.Write", res: []string{"int", "error"}, trace: "#ev"},
+			"WriteSyncer.Sync":  {kind: "extstmt", f: "WriteSyncer.Sync", res: []string{"error"}, trace: "#ev"},
+		}}
+}
+
+// BufferedWriteSyncer: the bufio.Writer is a VALUE that Flush / Write replace (and record); Available / Buffered read it.
+// initialize() (ticker, goroutine, bufio.NewWriterSize) is an intrinsic on the fields it sets.
+func bwsFunc(name string) transFunc {
+	return transFunc{file: "zapcore/buffered_write_syncer.go", recv: "BufferedWriteSyncer", name: name, lean: "BufferedWriteSyncer_" + name,
+		fields: map[string]fieldSpec{"mu": {"mu", "Mutex"}, "initialized": {"initialized", "bool"}, "writer": {"writer", "BufioWriter"},
+			"WS": {"ws", "WriteSyncer"}, "Size": {"size", "int"}, "#ev": {"ev", "[]Event"}},
+		calls: map[string]shim{
+			"Mutex.Lock":            {kind: "extstmt", f: "Mutex.Lock", trace: "#ev"},
+			"Mutex.Unlock":          {kind: "extstmt", f: "Mutex.Unlock", trace: "#ev"},
+			"recv.initialize":       {kind: "extfld", f: "BufferedWriteSyncer.initialize", flds: []string{"initialized", "writer", "WS", "Size"}},
+			"BufioWriter.Available": {kind: "ext", f: "bufio.Available", res: []string{"int"}},
+			"BufioWriter.Buffered":  {kind: "ext", f: "bufio.Buffered", res: []string{"int"}},
+			"BufioWriter.Flush":     {kind: "mutext", f: "bufio.Flush", res: []string{"error"}, trace: "#ev"},
+			"BufioWriter.Write":     {kind: "mutext", f: "bufio.Write", res: []string{"int", "error"}, trace: "#ev"},
+			"WriteSyncer.Sync":      {kind: "extstmt", f: "WriteSyncer.Sync", res: []string{"error"}, trace: "#ev"},
+			"multierr.Append":       {kind: "builtin", f: "append...", res: []string{"error"}},
+		}}
+}
+
 var jsonEncFields = map[string]fieldSpec{
 	"buf":            {"buf", "Buffer"},
 	"spaced":         {"spaced", "bool"},
@@ -101,6 +219,27 @@ func probeFuncs() []transFunc {
 		"probeSlice", "probeSliceLo", "probeSliceHi", "probeIndex", "probeShort", "probeSwap", "probeLoop", "probeSwitch",
 		"probeRange", "probeMinMax", "probeNamed", "probeAppend", "probeIndexByte", "probeShadow", "probeWhile"} {
 		out = append(out, transFunc{file: "@verif/harness/cmd/zvh/trans_probe.go", name: n, lean: n, calls: stdCalls})
+	}
+	// round 2: struct values, forwarded results, variadic parameters; and on a receiver with recorded intrinsics:
+	// defer, recorded calls in argument position, nil-able values and their equality, calls through function values
+	pf := "@verif/harness/cmd/zvh/trans_probe.go"
+	pairT := map[string]string{"probePair": "struct:probePair"}
+	pairS := map[string][]fieldSpec{"probePair": {{"a", "int"}, {"b", "bytes"}}}
+	out = append(out,
+		transFunc{file: pf, name: "probeTwo", lean: "probeTwo"},
+		transFunc{file: pf, name: "probeStruct", lean: "probeStruct", types: pairT, structs: pairS},
+		transFunc{file: pf, name: "probeForward", lean: "probeForward",
+			calls: map[string]shim{"probeTwo": {kind: "fun", f: "probeTwo", res: []string{"int", "int"}}}},
+		transFunc{file: pf, name: "probeVariadic", lean: "probeVariadic"})
+	recFields := map[string]fieldSpec{"n": {"n", "int"}, "link": {"link", "opt:Tag"}, "other": {"other", "opt:Tag"},
+		"sub": {"sub", "ptr:struct:probePair"}, "fns": {"fns", "[]ProbeFn"}, "#ev": {"ev", "[]Event"}}
+	recCalls := merge(stdCalls, map[string]shim{
+		"recv.note": {kind: "extstmt", f: "probe.note", res: []string{"int"}, trace: "#ev"},
+		"recv.done": {kind: "extstmt", f: "probe.done", trace: "#ev"},
+		"ProbeFn()": {kind: "extstmt", f: "ProbeFn", res: []string{"int"}, trace: "#ev"},
+	})
+	for _, n := range []string{"probeDefer", "probeNilable", "probeFnValues"} {
+		out = append(out, transFunc{file: pf, recv: "probeRec", name: n, lean: n, fields: recFields, types: pairT, structs: pairS, calls: recCalls})
 	}
 	return out
 }
@@ -175,6 +314,102 @@ var transSpecs = []transSpec{
 				// decodeRune(x) is utf8.DecodeRuneInString / DecodeRune: (rune, size), modelled by Esc.validLen
 				"DecodeFn()": {kind: "extstmt", f: "decodeRune", res: []string{"i32", "int"}},
 			})},
+	}},
+	{table: "TransLocked", funcs: []transFunc{
+		lockedFunc("lockedWriteSyncer", "Write", "zapcore/write_syncer.go"),
+		lockedFunc("lockedWriteSyncer", "Sync", "zapcore/write_syncer.go"),
+		bwsFunc("Write"),
+		bwsFunc("Sync"),
+	}},
+	// sugar.go sweetenFields: the arguments are opaque values; what kind each is (Field / error / string / other) is
+	// asked through the comma-ok type assertions; the field constructors and the diagnostic logger are intrinsics
+	{table: "TransSweeten", funcs: []transFunc{
+		{file: "sugar.go", recv: "SugaredLogger", name: "sweetenFields", lean: "sweetenFields",
+			fields: map[string]fieldSpec{"#ev": {"ev", "[]Event"}},
+			types: map[string]string{"interface{}": "Any", "Field": "Field", "invalidPairs": "[]struct:invalidPair",
+				"invalidPair": "struct:invalidPair"},
+			structs: map[string][]fieldSpec{"invalidPair": {{"position", "int"}, {"key", "Any"}, {"value", "Any"}}},
+			consts:  map[string]string{"_multipleErrMsg": "src", "_oddNumberErrMsg": "src", "_nonStringKeyErrMsg": "src"},
+			calls: map[string]shim{
+				".(Field)":  {kind: "extstmt", f: "assert.Field", res: []string{"Field", "bool"}},
+				".(error)":  {kind: "extstmt", f: "assert.error", res: []string{"ErrVal", "bool"}},
+				".(string)": {kind: "extstmt", f: "assert.string", res: []string{"string", "bool"}},
+				"Error":     {kind: "ext", f: "zap.Error", res: []string{"Field"}},
+				"Any":       {kind: "ext", f: "zap.Any", res: []string{"Field"}},
+				"Array":     {kind: "ext", f: "zap.Array", res: []string{"Field"}},
+				// cap(s) is a parameter of the context about which only len(s) ≤ cap(s) is assumed
+				"cap": {kind: "ext", f: "cap", res: []string{"int"}},
+				// the diagnostics go to the base logger at Error level with skip extra frames: recorded
+				"recv.base.WithOptions(AddCallerSkip(skip)).Error": {kind: "extstmt", f: "diag.Error", trace: "#ev"},
+			}},
+	}},
+	// internal/stacktrace Capture: the pooled *Stack is THE object of the field environment; runtime.Callers fills the
+	// slice it is handed and returns the count; slices are values (pcs and storage alias in Go: only their lengths and
+	// the final contents of pcs matter, see docs/TRANSLATOR.md)
+	{table: "TransCapture", funcs: []transFunc{
+		{file: "internal/stacktrace/stack.go", name: "Capture", lean: "Capture",
+			fields: map[string]fieldSpec{"pcs": {"pcs", "[]u64"}, "storage": {"storage", "[]u64"}, "frames": {"frames", "Frames"}},
+			recvAs: &fieldSpec{"self", "Stack"},
+			types:  map[string]string{"Depth": "int", "*Stack": "Stack", "uintptr": "u64"},
+			consts: map[string]string{"First": "src", "Full": "src"},
+			calls: map[string]shim{
+				"_stackPool.Get":        {kind: "object"},
+				"runtime.Callers":       {kind: "mutarg:1", f: "runtime.Callers", res: []string{"int"}},
+				"runtime.CallersFrames": {kind: "ext", f: "runtime.CallersFrames", res: []string{"Frames"}},
+				"make":                  {kind: "ext", f: "make.zeros", res: []string{"[]u64"}},
+			}},
+	}},
+	{table: "TransLogger", funcs: []transFunc{
+		{file: "logger.go", name: "terminalHookOverride", lean: "terminalHookOverride", types: loggerTypes, consts: hookConsts},
+		{file: "logger.go", recv: "Logger", name: "check", lean: "Logger_check",
+			fields: map[string]fieldSpec{"core": {"core", "Core"}, "name": {"name", "string"}, "clock": {"clock", "Clock"},
+				"development": {"dev", "bool"}, "onPanic": {"onPanic", "opt:Hook"}, "onFatal": {"onFatal", "opt:Hook"}, "#ev": {"ev", "[]Event"}},
+			types: loggerTypes, consts: hookConsts, structs: loggerStructs,
+			tail: &tailSpec{from: "ce.ErrorOutput = log.errorOutput", f: "Logger.annotate", args: []string{"ce", "ent"}, res: "ptr:struct:CE", trace: "#ev"},
+			calls: map[string]shim{
+				"Core.Enabled":         {kind: "ext", f: "Core.Enabled", res: []string{"bool"}},
+				"Core.Check":           {kind: "extstmt", f: "Core.Check", res: []string{"ptr:struct:CE"}, trace: "#ev"},
+				"Clock.Now":            {kind: "extstmt", f: "Clock.Now", res: []string{"Time"}, trace: "#ev"},
+				"ptr:struct:CE.After":  {kind: "ext", f: "CE.After", res: []string{"ptr:struct:CE"}}, // proved separately: TransCEAdd
+				"terminalHookOverride": {kind: "fun", f: "terminalHookOverride", res: []string{"opt:Hook"}},
+			}},
+		sugarGuard("log", "msg := getMessage(template, fmtArgs)"),
+		sugarGuard("logln", "msg := getMessageln(fmtArgs)"),
+	}},
+	{table: "TransCores", funcs: []transFunc{
+		coreFunc("zapcore/core.go", "ioCore", "Sync", ioCoreFields, selfCore, ioCoreCalls),
+		coreFunc("zapcore/core.go", "ioCore", "Write", ioCoreFields, selfCore, ioCoreCalls),
+		coreFunc("zapcore/core.go", "ioCore", "Check", ioCoreFields, selfCore, ioCoreCalls),
+		coreFunc("zapcore/tee.go", "multiCore", "Write", nil, &fieldSpec{"mc", "[]Core"}, nil),
+		coreFunc("zapcore/tee.go", "multiCore", "Sync", nil, &fieldSpec{"mc", "[]Core"}, nil),
+		coreFunc("zapcore/tee.go", "multiCore", "Check", nil, &fieldSpec{"mc", "[]Core"}, nil),
+		coreFunc("zapcore/tee.go", "multiCore", "Enabled", nil, &fieldSpec{"mc", "[]Core"}, nil),
+		coreFunc("zapcore/hook.go", "hooked", "Check", hookedFields, selfCore, nil),
+		coreFunc("zapcore/hook.go", "hooked", "Write", hookedFields, selfCore, map[string]shim{
+			"HookFn()": {kind: "extstmt", f: "HookFn", res: []string{"error"}, trace: "#ev"}}),
+		coreFunc("zapcore/increase_level.go", "levelFilterCore", "Enabled", lfcFields, selfCore, map[string]shim{
+			"LevelEnabler.Enabled": {kind: "ext", f: "LevelEnabler.Enabled", res: []string{"bool"}}}),
+		coreFunc("zapcore/increase_level.go", "levelFilterCore", "Check", lfcFields, selfCore, map[string]shim{
+			"recv.Enabled": {kind: "fun", f: "levelFilterCore_Enabled", res: []string{"bool"}}}),
+	}},
+	{table: "TransCEAdd", funcs: []transFunc{
+		ceAddFunc("AddCore", nil),
+		ceAddFunc("After", nil),
+		ceAddFunc("Should", map[string]shim{"recv.After": {kind: "fun", f: "After", res: []string{"CE"}}}),
+	}},
+	{table: "TransCE", funcs: []transFunc{
+		{file: "zapcore/entry.go", recv: "CheckedEntry", name: "Write", lean: "Write",
+			fields: ceFields, recvNil: "isnil", recvAs: &fieldSpec{"self", "CE"},
+			types: map[string]string{"Field": "Field"},
+			calls: map[string]shim{
+				// every call out of Write is an external intrinsic that is RECORDED: what is proved is their order and count
+				"Core.Write":           {kind: "extstmt", f: "Core.Write", res: []string{"error"}, trace: "#ev"},
+				"fmt.Fprintf":          {kind: "extstmt", f: "fmt.Fprintf", res: []string{"int", "error"}, trace: "#ev"},
+				"opt:WriteSyncer.Sync": {kind: "extstmt", f: "ErrorOutput.Sync", res: []string{"error"}, trace: "#ev"},
+				"opt:Hook.OnWrite":     {kind: "extstmt", f: "hook.OnWrite", trace: "#ev"},
+				"putCheckedEntry":      {kind: "extstmt", f: "putCheckedEntry", trace: "#ev"},
+				"multierr.Append":      {kind: "builtin", f: "append...", res: []string{"error"}},
+			}},
 	}},
 	{table: "TransJsonSep", funcs: []transFunc{
 		{file: "zapcore/json_encoder.go", recv: "jsonEncoder", name: "addElementSeparator", lean: "addElementSeparator",
